@@ -19,9 +19,15 @@ def _theta(params):
     return jnp.sum(params.eq_params["theta"])
 
 
+def _kappa(params):
+    if "kappa" in params.eq_params:
+        return jnp.sum(params.eq_params["kappa"])
+    return 0.0
+
+
 def _resid(self, z, uval, dlast, params):
     return (self.A @ uval + self.Bz @ z + self.C * _theta(params) + self.E * uval[0] ** 2
-            + self.G * dlast)
+            + self.G * dlast + self.K * _kappa(params))
 
 
 class RandODE(jinns.loss.ODE):
@@ -30,6 +36,7 @@ class RandODE(jinns.loss.ODE):
     C: jax.Array
     E: jax.Array
     G: jax.Array
+    K: jax.Array
 
     def equation(self, t, u, params):
         z = jnp.reshape(t, (1,))
@@ -43,6 +50,7 @@ class RandStatio(jinns.loss.PDEStatio):
     C: jax.Array
     E: jax.Array
     G: jax.Array
+    K: jax.Array
 
     def equation(self, x, u, params):
         if isinstance(u, jinns.utils.SPINN):
@@ -57,6 +65,7 @@ class RandNonStatio(jinns.loss.PDENonStatio):
     C: jax.Array
     E: jax.Array
     G: jax.Array
+    K: jax.Array
 
     def equation(self, t, x, u, params):
         if isinstance(u, jinns.utils.SPINN):
@@ -75,7 +84,7 @@ def _resid_grid(self, t, x, u, params):
         cols = jnp.concatenate([t, x], axis=-1)
     zg = _get_grid(cols)
     return (jnp.einsum("co,...o->...c", self.A, vals) + jnp.einsum("cd,...d->...c", self.Bz, zg)
-            + self.C * _theta(params) + self.E * vals[..., 0:1] ** 2)
+            + self.C * _theta(params) + self.E * vals[..., 0:1] ** 2 + self.K * _kappa(params))
 
 
 class ResidSpec:
@@ -88,16 +97,74 @@ class ResidSpec:
         self.C = rng.uniform(-1, 1, ncomp)
         self.E = rng.uniform(-1, 1, ncomp)
         self.G = rng.uniform(-1, 1, ncomp) if with_deriv else np.zeros(ncomp)
+        self.K = rng.uniform(-1, 1, ncomp)
         self.ncomp = ncomp
 
     def module(self, kind, **kw):
         cls = {"ode": RandODE, "statio": RandStatio, "nonstatio": RandNonStatio}[kind]
         return cls(A=jnp.asarray(self.A), Bz=jnp.asarray(self.Bz), C=jnp.asarray(self.C),
-                   E=jnp.asarray(self.E), G=jnp.asarray(self.G), **kw)
+                   E=jnp.asarray(self.E), G=jnp.asarray(self.G), K=jnp.asarray(self.K), **kw)
 
     def resid(self, net, z, eq, theta=None):
         z = np.asarray(z, float)
         v = net.val(z, eq)
         th = float(np.sum(eq["theta"])) if theta is None else theta
         g = net.grad(z, eq)[0, -1] if np.any(self.G) else 0.0
-        return self.A @ v + self.Bz @ z + self.C * th + self.E * v[0] ** 2 + self.G * g
+        ka = float(np.sum(eq["kappa"])) if "kappa" in eq else 0.0
+        return self.A @ v + self.Bz @ z + self.C * th + self.E * v[0] ** 2 + self.G * g + self.K * ka
+
+
+# ----------------------------------------------------------------------------- system equations
+def _sys_resid(self, z, us, params_dict):
+    return self.A @ us + self.Bz @ z + self.C * jnp.sum(params_dict.eq_params["theta"])
+
+
+class SysODE(jinns.loss.ODE):
+    A: jax.Array
+    Bz: jax.Array
+    C: jax.Array
+    names: tuple = eqx.field(static=True)
+
+    def equation(self, t, u_dict, params_dict):
+        us = jnp.stack([u_dict[k](t, params_dict.extract_params(k))[0] for k in self.names])
+        return _sys_resid(self, jnp.reshape(t, (1,)), us, params_dict)
+
+
+class SysStatio(jinns.loss.PDEStatio):
+    A: jax.Array
+    Bz: jax.Array
+    C: jax.Array
+    names: tuple = eqx.field(static=True)
+
+    def equation(self, x, u_dict, params_dict):
+        us = jnp.stack([u_dict[k](x, params_dict.extract_params(k))[0] for k in self.names])
+        return _sys_resid(self, x, us, params_dict)
+
+
+class SysNonStatio(jinns.loss.PDENonStatio):
+    A: jax.Array
+    Bz: jax.Array
+    C: jax.Array
+    names: tuple = eqx.field(static=True)
+
+    def equation(self, t, x, u_dict, params_dict):
+        us = jnp.stack([u_dict[k](t, x, params_dict.extract_params(k))[0] for k in self.names])
+        return _sys_resid(self, jnp.concatenate([t, x]), us, params_dict)
+
+
+class SysSpec:
+    def __init__(self, seed, ncomp, names, D):
+        rng = np.random.default_rng([int(seed), ncomp, len(names), D, 29])
+        self.A = rng.uniform(-1, 1, (ncomp, len(names)))
+        # time gets a much larger coefficient than space: (t, x) vs (x, t) is visible in the value
+        self.Bz = rng.uniform(0.5, 1.0, (ncomp, D)) * np.array([7.0] + [1.0] * (D - 1))
+        self.C = rng.uniform(-1, 1, ncomp)
+        self.names = tuple(names)
+
+    def module(self, kind):
+        cls = {"ode": SysODE, "statio": SysStatio, "nonstatio": SysNonStatio}[kind]
+        return cls(A=jnp.asarray(self.A), Bz=jnp.asarray(self.Bz), C=jnp.asarray(self.C), names=self.names)
+
+    def resid(self, nets, z, eq):
+        us = np.array([nets[k].val(z, eq)[0] for k in self.names])
+        return self.A @ us + self.Bz @ np.asarray(z, float) + self.C * float(np.sum(eq["theta"]))
